@@ -104,6 +104,15 @@ def showOptInts : Option (List Int) → String
 
 def limitOfInt (n : Int) : Option Nat := if n ≤ 0 then none else some n.toNat
 
+def doExpand (std : Bool) (runes thex shex m names : String) : String :=
+  match parseNatList runes, parseHex thex, parseHex shex, parseIntList m,
+        (if names = "none" then some [] else (names.splitOn ",").mapM parseHex) with
+  | some rs, some t, some src, some m, some ns =>
+    let isName := fun r => (48 ≤ r && r ≤ 57) || (65 ≤ r && r ≤ 90) || (97 ≤ r && r ≤ 122) || r = 95 || rs.contains r
+    let nl := ns.map (·.toList)
+    toHex (if std then Std.stdExpand isName t src m nl else Model.cxExpand isName t src m nl).toArray
+  | _, _, _, _, _ => "bad-op"
+
 def handle (line : String) : String :=
   match (line.trimAscii.toString.splitOn " ").filter (· ≠ "") with
   | ["decode", hex, pos] =>
@@ -137,6 +146,74 @@ def handle (line : String) : String :=
       | "C" => showSpans (Loops.findAllC find spanOf next len)
       | _ => "bad-op"
     | _, _, _, _ => "bad-op"
+  -- SWAR models
+  | ["memchr", needles, hex] =>
+    match parseNatList needles, parseHex hex with
+    | some ns, some h => toString (Swar.memchrNGeneric h ns)
+    | _, _ => "bad-op"
+  | ["isascii", hex] =>
+    match parseHex hex with
+    | some h => toString (Swar.isASCIIGeneric h)
+    | none => "bad-op"
+  | ["memmem", rare, hex, nhex] =>
+    match parseNat rare, parseHex hex, parseHex nhex with
+    | some r, some h, some n => toString (Swar.memmemSingle h n r)
+    | _, _, _ => "bad-op"
+  | ["naivememmem", hex, nhex] =>
+    match parseHex hex, parseHex nhex with
+    | some h, some n => toString (Swar.naiveMemmem h n)
+    | _, _ => "bad-op"
+  -- template expansion: model (coregex port) and spec (regexp)
+  | ["expand", runes, thex, shex, m, names] => doExpand false runes thex shex m names
+  | ["stdexpand", runes, thex, shex, m, names] => doExpand true runes thex shex m names
+  | ["quotemeta", hex] =>
+    match parseHex hex with
+    | some h => toHex (Model.cxQuoteMeta h.toList).toArray
+    | none => "bad-op"
+  | ["stdquotemeta", hex] =>
+    match parseHex hex with
+    | some h => toHex (Std.stdQuoteMeta h.toList).toArray
+    | none => "bad-op"
+  | ["split", pe, shex, n, ms] =>
+    match parseHex shex, parseInt n, parseTable ms with
+    | some s, some n, some t =>
+      let spans := t.toList.filterMap fun o => o.map spanOf
+      match Loops.split (pe = "1") s.toList n spans with
+      | none => "nil"
+      | some pieces => if pieces.isEmpty then "empty" else ",".intercalate (pieces.map fun p => toHex p.toArray)
+    | _, _, _ => "bad-op"
+  -- Replace* loop model over a recorded table; mode `lit:<hex>` or `wrap` (= "<" ++ match ++ ">")
+  | ["replace", shex, ws, tbl, mode] =>
+    match parseHex shex, parseNatList ws, parseTable tbl with
+    | some src, some ws, some t =>
+      let find := tableFind t
+      let next := Loops.nextOf (widthFn ws)
+      let repl : List Int → List Nat :=
+        if mode = "wrap" then fun m => [60] ++ Std.slice src (spanOf m).1 (spanOf m).2 ++ [62]
+        else match parseHex (mode.drop 4).toString with
+          | some r => fun _ => r.toList
+          | none => fun _ => []
+      toHex (Loops.replaceAll find spanOf next src.toList repl).toArray
+    | _, _, _ => "bad-op"
+  -- slim Teddy model
+  | ["teddy", op, start, hex, fp, pats] =>
+    match parseNat start, parseHex hex, parseNat fp, (pats.splitOn ",").mapM parseHex with
+    | some st, some h, some fp, some ps =>
+      let t := Teddy.mk (ps.map (·.toList)) fp
+      match op with
+      | "find" => (match Teddy.find t h st with | some i => toString i | none => "-1")
+      | "match" => (match Teddy.findMatch t h st with | some (i, id) => s!"{i},{id}" | none => "-1")
+      | _ => "bad-op"
+    | _, _, _, _ => "bad-op"
+  -- visited-table model: ops `r<n>` (reset with n entries) / `b` (bump); answers gen:len:cap after each op
+  | ["vis", ops] =>
+    let step := fun (acc : State.Vis × List String) (tok : String) =>
+      let s := acc.1
+      let s' := if tok = "b" then s.bump else match parseNat (tok.drop 1).toString with
+        | some n => s.reset n
+        | none => s
+      (s', acc.2 ++ [s!"{s'.gen}:{s'.len}:{s'.arr.length}"])
+    ",".intercalate ((ops.splitOn ",").foldl step (State.Vis.new, [])).2
   -- bounded backtracker model on a dumped NFA
   | ["bt", op, at_, hex, nfa] =>
     match parseNat at_, parseHex hex, parseNfa nfa with
